@@ -376,11 +376,35 @@ func (b *Body) loopEnv(lp *Loop, st State, phiVal func(*ssa.Phi) *Val) *CEnv {
 			env.vars[p.Comment] = &CV{T: b.refT(v), Type: p.Type(), Sort: b.ft.sortOf(p.Type())}
 		}
 		if p == lp.IdxPhi {
-			env.vars["i"] = &CV{T: A("+", v.T, Int(1)), Type: types.Typ[types.Int], Sort: "Int"}
+			cnt := &CV{T: A("+", v.T, Int(1)), Type: types.Typ[types.Int], Sort: "Int"}
+			env.vars["idx"] = cnt
+			if _, taken := env.vars["i"]; !taken {
+				env.vars["i"] = cnt
+			}
+		}
+	}
+	// implicit counts of the enclosing range loops: idx<ordinal>
+	for _, outer := range b.loops {
+		if outer != lp && outer.IdxPhi != nil && outer.Blocks[lp.Header] {
+			if ov, ok := b.vals[outer.IdxPhi]; ok {
+				env.vars[fmt.Sprintf("idx%d", outer.Ordinal)] = &CV{T: A("+", ov.T, Int(1)), Type: types.Typ[types.Int], Sort: "Int"}
+			}
+		}
+	}
+	// a source variable named i (a phi) takes precedence over the implicit count
+	for _, in := range lp.Header.Instrs {
+		p, ok := in.(*ssa.Phi)
+		if !ok {
+			break
+		}
+		if p.Comment == "i" && p != lp.IdxPhi {
+			if v := phiVal(p); v != nil {
+				env.vars["i"] = &CV{T: b.refT(v), Type: p.Type(), Sort: b.ft.sortOf(p.Type())}
+			}
 		}
 	}
 	if it := b.loopMapIter(lp); it != nil {
-		env.vars["i"] = &CV{T: b.ft.region(st, b.iterIdx[it]), Sort: "Int", Type: types.Typ[types.Int]}
+		env.vars["it"] = &CV{T: b.ft.region(st, b.iterIdx[it]), Sort: "Int", Type: types.Typ[types.Int]}
 		info := b.iterInfo[it]
 		env.vars["keys"] = &CV{T: info.keys, Sort: "(Array Int " + info.ksort + ")"}
 		env.vars["n"] = &CV{T: info.n, Sort: "Int", Type: types.Typ[types.Int]}
